@@ -262,7 +262,13 @@ impl State {
         match self.inner {
             // If the stream is already in a `Closed` state, do nothing,
             // provided that there are no frames still in the send queue.
-            Closed(..) if !queued => {}
+            //
+            // A reset of our own that is only *scheduled* does not count: no
+            // frame has been sent for it yet, and once the peer's reset has
+            // cleared the send queue nothing else will finish closing the
+            // stream (a scheduled reset is not released by
+            // `Counts::transition_after`).
+            Closed(ref cause) if !queued && !matches!(cause, Cause::ScheduledLibraryReset(..)) => {}
             // A notionally `Closed` stream may still have queued frames in
             // the following cases:
             //
